@@ -29,6 +29,8 @@ CFG = dict(
         "e2e withdrawals-survive: prefixes withdrawn by the same message (pre-installed in the same batch) are gone; also judged for the fault-free template",
         "e2e reset: NOTIFICATION / close only when the engine damaged framing / TLV chain / an MP attribute / NLRI octets",
         "e2e ebgp-filter: no stored path from an external peer carries LOCAL_PREF / ORIGINATOR_ID / CLUSTER_LIST",
+        "e2e ibgp-only-attr-believed: the same for a route-server client (external AS, route_server_client), on the valid template as well as on "
+        "every corrupted variant; per role (ebgp, rs-client, ibgp, rr-client, confed-ebgp) the fate of each intact iBGP-only attribute is counted",
         "e2e update-before-established: an UPDATE between OPEN and KEEPALIVE leaves nothing in the RIB",
         "e2e no panic in the session task / rx_msg (JoinHandle error)",
     ],
@@ -40,11 +42,16 @@ CFG = dict(
         "when a changed length field still lets a plain TLV walk end exactly at the end of the attribute block, only panics, resets-with-reason and legacy withdrawals are judged",
         "a faulty or duplicated MP_REACH_NLRI / MP_UNREACH_NLRI may reset the session; its own NLRI are then not required to appear as withdrawals",
         "semantic NEXT_HOP values (0.0.0.0, multicast), AIGP inner TLVs and mismatched AS-number width inside AS_PATH are not generated",
-        "e2e: one neighbour per test Global (eBGP AS 65002 / iBGP AS 65001 / confederation member 64701 of confederation 65010), hold time 3600 s both sides, "
+        "e2e: one neighbour per test Global (eBGP AS 65002 / route-server client AS 65003 / iBGP and RR client AS 65001 / confederation member 64701 "
+        "of confederation 65010), hold time 3600 s both sides, "
         "no import policy, no prefix limit, no GR; inbound loop rules (AS loop, ORIGINATOR_ID, CLUSTER_LIST) never trigger and are C09's",
         "e2e: a held route that stays untouched under discardable-only faults, routes under keys the template does not have (mis-parsed octets), "
         "and what is left of a peer after a reset (beyond 'not the faulty UPDATE's attributes') are counted, not judged",
         "e2e: when the harness's own valid withdraw-everything UPDATE does not empty the Adj-RIB-In (control), every case of that template gets a session of its own",
+        "e2e: iBGP-only attributes from internal neighbours (iBGP, RR client) and from confederation members are only counted (stored / dropped): the statement "
+        "speaks about external peers; RFC 5065 makes LOCAL_PREF legitimate inside a confederation and RFC 4456 / 7606 do not place members on either side",
+        "e2e direct mode passes validate_message the reference notion of 'external peer' (it cannot exercise run_select's own expression); what run_select "
+        "passes is judged by the socket mode",
         "e2e runs the debug profile only (overflow checks on)",
     ],
     floor=dict(
@@ -81,7 +88,13 @@ CFG = dict(
             "e2e:clause:reset:no-reset-needed-and-none": 2000, "e2e:outcome:reset-allowed": 570, "e2e:outcome:reset:notification": 570,
             "e2e:early-update:checked:socket": 15, "e2e:early-update:checked:direct": 40,
             "e2e:announced-prefixes-held-before": 1500,
-            "e2e:session:Ebgp": 1200, "e2e:session:Ibgp": 1200, "e2e:session:Confed": 600,
+            "e2e:session:Ebgp": 600, "e2e:session:Ibgp": 600, "e2e:session:Confed": 600,
+            "e2e:session:RsClient": 600, "e2e:session:RrClient": 300,
+            "e2e:ibgp-only:rs-client:5:observed": 140, "e2e:ibgp-only:rs-client:9:observed": 140, "e2e:ibgp-only:rs-client:10:observed": 140,
+            "e2e:ibgp-only:ebgp:5:observed": 60, "e2e:ibgp-only:ebgp:9:observed": 60, "e2e:ibgp-only:ebgp:10:observed": 60,
+            "e2e:ibgp-only:ibgp:5:observed": 250, "e2e:ibgp-only:ibgp:9:observed": 100, "e2e:ibgp-only:ibgp:10:observed": 100,
+            "e2e:ibgp-only:rr-client:5:observed": 120, "e2e:ibgp-only:rr-client:9:observed": 70, "e2e:ibgp-only:rr-client:10:observed": 60,
+            "e2e:ibgp-only:confed-ebgp:5:observed": 250, "e2e:ibgp-only:confed-ebgp:9:observed": 110, "e2e:ibgp-only:confed-ebgp:10:observed": 100,
             "e2e:session:as2": 1200, "e2e:session:as4": 1800, "e2e:session:addpath": 780,
             "e2e:family:V6": 200, "e2e:family:Vpn4": 200, "e2e:family:Vpn6": 200, "e2e:family:Evpn": 200, "e2e:family:Lab4": 200,
             "e2e:family:Lab6": 200, "e2e:family:Rtc": 200, "e2e:family:V4Mc": 200, "e2e:family:V4Mp": 150,
